@@ -24,7 +24,8 @@ def to_strings(case, spell=False):
         "BPMS": ev(case["bpms"]),
         "STOPS": ev(case["stops"]),
         "DELAYS": ev(case["delays"]),
-        "WARPS": ",".join(f"{beat_str(k)}={beat_str(l)}" for k, l in case["warps"]),
+        # (a length of 0 ticks is written as a positive length below half a tick: it rounds to nothing, see C14)
+        "WARPS": ",".join(f"{beat_str(k)}={beat_str(l) if l else ['0.010', '0.005', '0.000'][k % 3]}" for k, l in case["warps"]),
         "OFFSET": case["offset"],
     }
 
@@ -58,6 +59,20 @@ def build_timing_data(case, style=None):
     h = digest64(case) // 4
     text = to_text(case, style=style, spell=h % 5 == 0)
     sf = SSCSimfile(string=text) if style == "ssc" else SMSimfile(string=text)
+    if style == "ssc" and h % 7 == 1:
+        # split timing: the case's timing sits on the CHART (an SSC simfile of version 0.7 / 0.70 / 0.83), the simfile
+        # carries other values. A chart without OFFSET has offset 0 whatever the simfile says.
+        from simfile.ssc import SSCChart
+
+        s = to_strings(case, h % 5 == 0)
+        ver = ["0.7", "0.70", "0.83", "0.7"][(h // 7) % 4]
+        sf = SSCSimfile(string=f"#VERSION:{ver};\n#OFFSET:12.345;\n#BPMS:0.000=33.000;\n#STOPS:1.000=9.000;\n#WARPS:2.000=1.000;\n")
+        chart = SSCChart.blank()
+        for k in ("BPMS", "STOPS", "DELAYS", "WARPS"):
+            chart[k] = s[k]
+        if Decimal(case["offset"]) != 0 or (h // 28) % 2:
+            chart["OFFSET"] = s["OFFSET"]
+        return TimingData(sf, chart)
     if style == "ssc" and h % 3 == 0:
         # a chart is named as well, but its timing properties are absent or present-and-empty: the simfile's apply
         from simfile.ssc import SSCChart
@@ -78,7 +93,11 @@ def variant_of(case):
     out = set()
     if h % 5 == 0 and sum(len(case[k]) for k in ("bpms", "stops", "delays")) > 0:
         out.add("values_in_exponent_or_plus_sign_spelling")
-    if style_of(case) == "ssc" and h % 3 == 0 and h % 2:
+    if style_of(case) == "ssc" and h % 7 == 1:
+        out.add("timing_on_the_chart_of_a_version_0_7_simfile" if (h // 7) % 4 != 2 else "timing_on_the_chart")
+        if Decimal(case["offset"]) == 0 and not (h // 28) % 2:
+            out.add("chart_timing_without_an_offset_of_its_own")
+    elif style_of(case) == "ssc" and h % 3 == 0 and h % 2:
         out.add("chart_with_empty_timing_properties_named")
     return out
 
@@ -191,7 +210,7 @@ def random_case(rng, max_events=40, span_beats=400):
             c["delays"][k] = rdec(rng, 0.001, rng.choice([0.1, 1, 10]))
         else:
             # lengths that make nested / overlapping / touching warps likely
-            l = rng.choice([1, 2, 12, 24, 48, 96, rng.randint(1, 96)])
+            l = rng.choice([1, 2, 12, 24, 48, 96, rng.randint(1, 96), 0])
             later = [h for h in hot if h > k]
             if later and rng.random() < 0.5:
                 l = max(1, rng.choice(later) - k + rng.choice([0, 0, -1, 1, step]))
@@ -313,6 +332,8 @@ def event_features(case):
         f.add("three_warps_one_union")
     if len(tl.U) > 16:
         f.add("more_than_16_separate_warp_segments")
+    if any(l == 0 for _, l in case["warps"]):
+        f.add("warp_shorter_than_half_a_tick")
     for (a, b) in tl.U:
         if a == 0:
             f.add("warp_at_beat_0")
